@@ -308,6 +308,51 @@ func c14Region(c *Ctx, r *Report, rule string) {
 			continue
 		}
 		start := regionStart(fn, sp.strct)
+		helperMode := false
+		{
+			// the validation may live in a helper of the matcher that reports "valid" as a bool: its "false" must
+			// be the matcher's (false, nil) where it is called, and it must be called before the matcher's own first
+			// test of the structure's fields (if it has one)
+			for _, g := range c.Funcs {
+				if g == fn || g.Parent() != nil || g.Signature.Results().Len() != 1 || typeStr(g.Signature.Results().At(0).Type()) != "bool" {
+					continue
+				}
+				inChain := false
+				for _, h := range c.homeChain(g) {
+					if h == fn {
+						inChain = true
+					}
+				}
+				if !inChain {
+					continue
+				}
+				if st := regionStart(g, sp.strct); st != nil && falseRejects(c, g) {
+					first := start == nil
+					if sites, _ := c.callSitesOf(g); !first && len(sites) == 1 && sites[0].Parent() == fn {
+						cb := sites[0].Block()
+						first = cb != start && cb.Dominates(start)
+						if cb == start {
+							// same block: the call comes before the block's first load of the structure
+							for _, in := range start.Instrs {
+								if in == sites[0].(ssa.Instruction) {
+									first = true
+									break
+								}
+								if ld, ok := in.(*ssa.UnOp); ok && ld.Op == token.MUL {
+									if k, ok := fieldKey(ld.X); ok && strings.HasPrefix(k, sp.strct+".") {
+										break
+									}
+								}
+							}
+						}
+					}
+					if first {
+						start, helperMode = st, true
+						break
+					}
+				}
+			}
+		}
 		if start == nil {
 			r.bad(rule, sp.fn, sp.name, c.pos(fn.Pos()), "no validation of "+sp.strct+" found in the matcher")
 			continue
@@ -325,6 +370,14 @@ func c14Region(c *Ctx, r *Report, rule string) {
 				total++
 				res := evalRegion(start, v)
 				want := sp.accept(v)
+				if helperMode && res.kind == "return" {
+					switch {
+					case res.ret == "0":
+						res.ret = "false"
+					case res.ret == "1" || strings.HasPrefix(res.ret, "true"):
+						res.ret = "?" // the helper says "valid": validation continues in the matcher
+					}
+				}
 				switch {
 				case res.kind == "return" && res.ret == "false:untyped bool, nil", res.kind == "return" && strings.HasPrefix(res.ret, "false"):
 					rejected++
@@ -682,4 +735,77 @@ func extractOfTuple(v ssa.Value, i int) *ssa.Extract {
 		}
 	}
 	return nil
+}
+
+// falseRejects: every use of the bool result of helper g makes "false" the caller's rejection: the result is the
+// condition of a branch (directly or negated) whose false side returns false first, or it is returned as the
+// caller's own first result.
+func falseRejects(c *Ctx, g *ssa.Function) bool {
+	sites, escapes := c.callSitesOf(g)
+	if escapes || len(sites) == 0 {
+		return false
+	}
+	returnsFalse := func(b *ssa.BasicBlock) bool {
+		ret, ok := b.Instrs[len(b.Instrs)-1].(*ssa.Return)
+		if !ok || len(ret.Results) == 0 {
+			return false
+		}
+		v, ok := constBool(ret.Results[0])
+		return ok && !v
+	}
+	var okUse func(v ssa.Value, negated bool, depth int) bool
+	okUse = func(v ssa.Value, negated bool, depth int) bool {
+		if v.Referrers() == nil || depth > 3 {
+			return false
+		}
+		n := 0
+		for _, ref := range *v.Referrers() {
+			switch x := ref.(type) {
+			case *ssa.DebugRef:
+			case *ssa.If:
+				n++
+				side := 1 // the side taken when the helper said false
+				if negated {
+					side = 0
+				}
+				if !returnsFalse(x.Block().Succs[side]) {
+					return false
+				}
+			case *ssa.UnOp:
+				n++
+				if x.Op != token.NOT || !okUse(x, !negated, depth+1) {
+					return false
+				}
+			case *ssa.Return:
+				n++
+				if negated || len(x.Results) == 0 || x.Results[0] != v {
+					return false
+				}
+			case *ssa.Phi:
+				// `a && helper()`: the join of a short-circuit; the other edges are constants false
+				n++
+				for _, e := range x.Edges {
+					if e == v {
+						continue
+					}
+					if cv, ok := constBool(e); !ok || cv != negated {
+						return false
+					}
+				}
+				if !okUse(x, negated, depth+1) {
+					return false
+				}
+			default:
+				return false
+			}
+		}
+		return n > 0
+	}
+	for _, cs := range sites {
+		call, ok := cs.(*ssa.Call)
+		if !ok || !okUse(call, false, 0) {
+			return false
+		}
+	}
+	return true
 }
